@@ -127,6 +127,7 @@ class SymEval:
         self.trace = []
         self.defs = {}         # names_as_atoms: atom -> defining value
         self.global_arrays = {}   # fq -> the one evaluated module/class-level array
+        self.stacked = False      # True: per-sample scalars are 1-D arrays (ndim 1, len n)
         self.def_node = {}     # atom -> statement node
         self.versions = {}
 
@@ -730,11 +731,11 @@ class SymEval:
                 return Bound(base, a)
         if isinstance(base, (Rat, int, float)) and not isinstance(base, bool):
             if a == 'ndim':
-                return 0
+                return 1 if self.stacked and isinstance(base, Rat) else 0
             if a == 'T':
                 return base
             if a == 'shape':
-                return ()
+                return (Opaque('n'),) if self.stacked and isinstance(base, Rat) else ()
             if a in ('copy', 'reshape'):
                 return Bound(base, a)
         if isinstance(base, PArr):
@@ -1366,6 +1367,14 @@ class SymEval:
                 else:
                     raise Unsupported('hstack part')
             return SArray((len(parts),), {(i,): p for i, p in enumerate(parts)})
+        if q in ('numpy.round', 'numpy.around', 'numpy.round_', 'numpy.rint', 'numpy.floor',
+                 'numpy.ceil', 'numpy.trunc', 'numpy.fix', 'builtins.round') and args and \
+                hasattr(A, 'func'):
+            # quantisation is not the identity: an uninterpreted function of its argument
+            name = q.split('.')[-1].rstrip('_')
+            extra = [self.rat(x) for x in args[1:] if isinstance(x, (int, Rat))]
+            extra += [self.rat(x) for x in kwargs.values() if isinstance(x, (int, Rat))]
+            return self.emap(lambda x: A.func(name, x, *extra), args[0])
         if q == 'numpy.hypot':
             return self.emap(lambda x, y: A.sqrt(A.add(A.mul(x, x), A.mul(y, y))),
                              args[0], args[1])
@@ -1449,6 +1458,12 @@ class SymEval:
                 d = int(self.A.const_of(d))
             dims.append(d)
         sample = False
+        if len(dims) >= 2 and not isinstance(dims[-1], int) and \
+                all(isinstance(d, int) for d in dims[:-1]):
+            # (k, n): component axis first, sample axis last ("stacked rows"); .T restores (n, k)
+            out = SArray(tuple(dims[:-1]), {}, default, False)
+            out.stacked_rows = True
+            return out
         if len(dims) >= 2 and (dims[0] == 1 or not isinstance(dims[0], int)):
             sample = True
             dims = dims[1:]
